@@ -193,6 +193,7 @@ FIX_OWNERS = {
     "fix: refuse legacy": ["C11"],
     "fix: parse upper-case": ["C18"],
     "fix: parse JSON floats": ["C13"],
+    "fix: only canonical decimal": ["C20"],
 }
 
 
